@@ -1,7 +1,7 @@
 import Astisub.Driver.Basic
 import Astisub.Model.Ops
 import Astisub.Model.LinCorr
-import Astisub.Model.CLI
+import Astisub.Model.CLIRun
 import Astisub.Spec.Conv
 import Astisub.Driver.SRT
 
@@ -47,6 +47,13 @@ def applyOps (xs : List Item) (args : List (List Item)) : List String → Option
   | op :: ops => match applyOp xs args op with
     | some (ys, args') => applyOps ys args' ops
     | none => none
+
+/-- is the `k`-th `-i` of a `conv.cli` command line the file that does not exist? -/
+def inputMissing : Nat → List String → Bool
+  | 0, "-i" :: v :: _ => v = "MISSING"
+  | k + 1, "-i" :: _ :: r => inputMissing k r
+  | k, _ :: r => inputMissing k r
+  | _, [] => false
 
 def unitOfDst (dst : String) : Int := if dst = "ssa" || dst = "ass" then 10000000 else 1000000
 
@@ -152,7 +159,14 @@ def handleConvS (strict : Bool) (op : String) (args impl : List String) : Verdic
   | "conv.cli", cmd :: flags =>
     -- flags of the fixed little command lines of the stream
     let dur (s : String) : Int :=
-      if s = "0s" then 0 else if s.startsWith "-" then -1 else 1     -- only the sign matters for validation
+      -- `flag.Duration` spellings used by the stream: [-]<n>s, [-]<n>ms
+      let neg := s.startsWith "-"
+      let body := if neg then (s.drop 1).toString else s
+      let v : Int :=
+        if body.endsWith "ms" then ((body.dropEnd 2).toString.toNat?.getD 0 : Nat) * 1000000
+        else if body.endsWith "s" then ((body.dropEnd 1).toString.toNat?.getD 0 : Nat) * 1000000000
+        else 0
+      if neg then -v else v
     let rec parse (fl : CLI.Flags) (outBad missing : Bool) : List String → CLI.Flags × Bool × Bool
       | "-i" :: v :: r => parse { fl with inputs := fl.inputs + 1 } outBad (missing || v = "MISSING") r
       | "-o" :: v :: r => parse { fl with output := true } (outBad || v = "OUTBAD") missing r
@@ -166,9 +180,17 @@ def handleConvS (strict : Bool) (op : String) (args impl : List String) : Verdic
       | [] => (fl, outBad, missing)
     -- `astikit.FlagCmd()`: the sub-command is the first argument unless it starts with '-'
     let (cmd', flags') := if cmd.startsWith "-" then ("", cmd :: flags) else (cmd, flags)
-    let (fl, outBad, missing) := parse {} false false flags'
-    let ok := (CLI.plan cmd' fl).isSome && !outBad && !missing
-    compare s!"exit-ok={ok} wrote={ok}" (" ".intercalate impl) fun _ => false
+    let (fl, outBad, _) := parse {} false false flags'
+    let missing := inputMissing 0 flags'
+    let missing2 := inputMissing 1 flags'
+    -- the stream's input files hold one cue; a missing input cannot be opened
+    let one : Item := { uid := 1, startAt := 1000000000, endAt := 2000000000, lines := [["hello"]], pay := 0 }
+    let two : Item := { uid := 2, startAt := 3000000000, endAt := 4000000000, lines := [["world"]], pay := 0 }
+    -- the stream's destinations: OUT = out.vtt, OUTBAD = out.xyz
+    let out := CLI.run cmd' fl (if outBad then "xyz" else "vtt") (if missing then none else some [one])
+      (if missing2 then none else some [two])
+    -- exit status, and whether the destination exists afterwards (`Write` creates it before anything can fail)
+    compare s!"exit-ok={out.ok} wrote={out.touched}" (" ".intercalate impl) fun _ => false
   | _, _ => .bad s!"unknown op {op}"
 
 /-- `ops.seq <op,op,…> <spare> <items>`: a history of operations on one cue list (any operation may occur several
